@@ -2,6 +2,7 @@
 """Evaluate a seeded change against the checks.
 
 usage: seed_eval.py <name> <srcdir-with-_out> [--checks C01,C02,...]
+       seed_eval.py <name> -     re-evaluate /verif/seeded/<name> as it is
 
 1. copy <srcdir>/_out/{patch.diff,seeded_demo_test.go,meta.json} to /verif/seeded/<name>/
 2. confirm in a scratch worktree (outside /repo and /verif): the demo passes without the
@@ -31,7 +32,7 @@ def main():
     dst = os.path.join("/verif/seeded", name)
     os.makedirs(dst, exist_ok=True)
     for f in ("patch.diff", "seeded_demo_test.go", "meta.json"):
-        if os.path.exists(os.path.join(out, f)):
+        if src != "-" and os.path.exists(os.path.join(out, f)):
             shutil.copy(os.path.join(out, f), os.path.join(dst, f))
     meta = {}
     try:
